@@ -292,6 +292,8 @@ pub fn run(o: &Opts) -> i32 {
                 "multipart" => out.emit(&multipart(c)),
                 "multipart_corrupt" => out.emit(&multipart_corrupt(c)),
                 "boundary_param" => out.emit(&boundary_param(c)),
+                "json_object" => out.emit(&crate::d_json::json_object(c)),
+                "json_array" => out.emit(&crate::d_json::json_array(c)),
                 "map" => {
                     for e in map_events(c) {
                         out.emit(&e);
